@@ -37,9 +37,16 @@ def heap_walks(repo: Repo) -> Dict[str, Walker]:
     for m in ("__init__", "is_full", "is_empty", "dad", "left_son", "right_son", "go_up", "go_down",
               "insert", "remove", "update"):
         fi = repo.need_method("Heap", m)
-        out[m] = Walker(repo, fi, self_class="Heap", subst=nil_subst(repo),
-                        inline=lambda f: f.cls == "Heap" and f.name.startswith("_") and not f.name.startswith("__"))
+        out[m] = Walker(repo, fi, self_class="Heap", subst=nil_subst(repo), inline=heap_helper)
     return out
+
+
+def heap_helper(f) -> bool:
+    """Private helpers of the queue, and public methods the documented API does not have (a comparator made public)."""
+    from .ir import api_signature
+    if f.cls != "Heap" or f.name.startswith("__"):
+        return False
+    return f.name.startswith("_") or (api_signature(f) is None and not f.decorators)
 
 
 # ---------------------------------------------------------------------------
@@ -214,10 +221,19 @@ def check_heap(rep, repo: Repo, pre: str = "") -> None:
     for name, want in (("dad", None), ("left_son", {("param", "_"): 2, 1: 1}), ("right_son", {("param", "_"): 2, 1: 2})):
         w = W[name]
         rets = [e for e in w.events if e.kind == "return" and e.fn is w.entry]
+        prm = ("param", w.entry.params[1])
+        if len(rets) == 2 and name == "dad":
+            # `if i > 0: return <parent>` / `return <something for i <= 0>`: positions are >= 0 and the root has no parent
+            # (the sifts never ask for it), so the branch for positive positions is the function
+            from .ir import facts as _facts
+            pos = [e for e in rets if _facts(e.guards) in ((("cmp", "<", ("const", 0), prm),), (("cmp", "<=", ("const", 1), prm),))]
+            if len(pos) == 1:
+                rets = pos
         if len(rets) != 1:
             raise AnalysisError(f"Heap.{name}: expected a single return")
-        prm = ("param", w.entry.params[1])
         t = rets[0].value
+        if name == "dad" and t[0] == "sel" and t[1] in (("cmp", "<", ("const", 0), prm), ("cmp", "<=", ("const", 1), prm)):
+            t = t[2]  # the same as a conditional expression
         if name == "dad":
             inner = strip_int(t)
             ok = False
@@ -233,7 +249,7 @@ def check_heap(rep, repo: Repo, pre: str = "") -> None:
     # ---- policy-specialised walks of the two sift routines -----------------------------------
     # `self.policy` is replaced by the constant "min" / "max": wherever the dispatch is written (outer if,
     # comparator helper, conditional expression) each walk sees one policy only.
-    helper = lambda f: f.cls == "Heap" and f.name.startswith("_") and not f.name.startswith("__")
+    helper = heap_helper
     SP: Dict[Tuple[str, str], Walker] = {}
     for name in ("go_up", "go_down"):
         for pol in ("min", "max"):
@@ -514,6 +530,13 @@ def check_heap(rep, repo: Repo, pre: str = "") -> None:
             bound = [c for c in cs if c[0] == "cmp" and (
                 (c[1] == "<=" and strip_old(c[2]) == child and strip_old(c[3]) == LAST)
                 or (c[1] == "<" and strip_old(c[2]) == child and strip_old(c[3]) == ("bin", "+", *sorted([LAST, ("const", 1)], key=repr))))]
+            if not bound and which == "left":
+                # `i < (last + 1) // 2` is `2 * i + 1 <= last` for integers: the positions that own a left child
+                half = ("bin", "//", ("bin", "+", *sorted([LAST, ("const", 1)], key=repr)), ("const", 2))
+                halves = [half, ("bin", "//", ("bin", "+", LAST, ("const", 1)), ("const", 2)),
+                          ("bin", "//", ("bin", "+", ("const", 1), LAST), ("const", 2))]
+                bound = [c for c in cs if c[0] == "cmp" and c[1] == "<" and strip_old(c[2]) == cur
+                         and deep_strip(c[3]) in [deep_strip(h) for h in halves]]
             g_last = e.guards[-1][0]
             src = w.guard_src.get(g_last)
             text = src[1] if src else e.text()
